@@ -1,14 +1,18 @@
 ------------------------------ MODULE IndexOOOGen ------------------------------
 (* Arrival-order enumerator for C05/C06: for a world shape of N blobs, every permutation of the arrivals, with
-   an optional index restart before the r-th arrival and an optional duplicate delivery appended.  One initial
-   state per scenario; the invariant prints it. *)
+   an optional index restart before the r-th arrival and an optional duplicate delivery: blob order[k] is
+   delivered a second time, either at the end (DupPos = "end") or at any later position p (DupPos = "any": also
+   while it is still waiting for a dependency that has not arrived).  One initial state per scenario; the
+   invariant prints it. *)
 EXTENDS Naturals, Sequences, FiniteSets, TLC, Json
-CONSTANTS Shape, N, Restarts, Dups
+CONSTANTS Shape, N, Restarts, Dups, DupPos
 VARIABLES order, restart, dup
 Perms == {s \in [1..N -> 1..N] : \A i, j \in 1..N : i # j => s[i] # s[j]}
-Init == order \in Perms /\ restart \in Restarts /\ dup \in Dups
+DupChoices == {<<0, 0>>} \cup {<<k, p>> : k \in Dups \ {0}, p \in (IF DupPos = "any" THEN 2..(N + 1) ELSE {N + 1})}
+Init == order \in Perms /\ restart \in Restarts /\ dup \in {d \in DupChoices : d[1] = 0 \/ d[2] > d[1]}
 Next == UNCHANGED <<order, restart, dup>>
 Spec == Init /\ [][Next]_<<order, restart, dup>>
-Full == IF dup = 0 THEN order ELSE Append(order, order[dup])
+Full == IF dup[1] = 0 THEN order
+        ELSE SubSeq(order, 1, dup[2] - 1) \o <<order[dup[1]]>> \o SubSeq(order, dup[2], N)
 Emit == PrintT(<<"RPL", ToJson([shape |-> Shape, order |-> Full, restart |-> restart])>>)
 =============================================================================
